@@ -20,8 +20,8 @@ PROPS = ('C08', 'C09', 'C10', 'C11', 'C15', 'C16')
 def bounds_for(tier, cap_mode):
     # (A actions, D steps, P panics, Q max capacity)
     if tier == 'thorough':
-        return [(3, 24, 1, 2), (2, 24, 2, 1)] if cap_mode == 'bounded' else [(3, 24, 1, 0)]
-    return [(2, 22, 1, 1)] if cap_mode == 'bounded' else [(2, 20, 1, 0)]
+        return [(3, 26, 2, 2), (4, 24, 1, 1)] if cap_mode == 'bounded' else [(4, 24, 1, 0)]
+    return [(3, 20, 1, 1)] if cap_mode == 'bounded' else [(3, 20, 1, 0)]
 
 
 def _job(args):
